@@ -114,13 +114,32 @@ static void res_begin(const char *v) {
     vh_obj_begin(NULL);
     vh_str("v", v);
 }
-/* checked result (ok, *r) + saturating result s of one variant */
-static void res_arith(const char *v, int rc, uint64_t r, uint64_t s) {
+/* checked result (ok, *r) + saturating result of one variant, the latter evaluated in four usage contexts (the inline
+ * variants are expanded at each call site, with whatever registers that site leaves free): s = call argument, s2 =
+ * third argument of an opaque function, s3 = stored straight into a structure, sc = operands swapped, same structure */
+static void res_arith(const char *v, int rc, uint64_t r, uint64_t s, uint64_t s2, uint64_t s3, uint64_t sc) {
     res_begin(v);
     vh_int("ok", rc == AWS_OP_SUCCESS ? 1 : 0);
     vh_wide("r", r);
     vh_wide("s", s);
+    vh_wide("s2", s2);
+    vh_wide("s3", s3);
+    vh_wide("sc", sc);
     vh_obj_end();
+}
+struct ctx32 {
+    uint32_t pad, x, y;
+};
+struct ctx64 {
+    uint64_t pad, x, y;
+};
+static __attribute__((noinline)) uint64_t sink32(uint64_t p, uint64_t q, uint32_t val) {
+    __asm__ volatile("" : : "r"(p), "r"(q) : "memory");
+    return val;
+}
+static __attribute__((noinline)) uint64_t sink64(uint64_t p, uint64_t q, uint64_t val) {
+    __asm__ volatile("" : : "r"(p), "r"(q) : "memory");
+    return val;
 }
 static void res_bits(const char *v, size_t clz, size_t ctz) {
     res_begin(v);
@@ -133,19 +152,31 @@ static void res_bits(const char *v, size_t clz, size_t ctz) {
     do {                                                                                                               \
         uint64_t r = SENT64;                                                                                           \
         int rc = P##aws_##OP##_u64_checked(a, b, &r);                                                                  \
-        res_arith(v, rc, r, P##aws_##OP##_u64_saturating(a, b));                                                       \
+        volatile struct ctx64 c_;                                                                                      \
+        c_.x = P##aws_##OP##_u64_saturating(a, b);                                                                     \
+        c_.y = P##aws_##OP##_u64_saturating(b, a);                                                                     \
+        uint64_t s2_ = sink64(b, a, P##aws_##OP##_u64_saturating(a, b));                                               \
+        res_arith(v, rc, r, P##aws_##OP##_u64_saturating(a, b), s2_, c_.x, c_.y);                                      \
     } while (0)
 #define ARITH32(P, OP, v)                                                                                              \
     do {                                                                                                               \
         uint32_t r = SENT32;                                                                                           \
         int rc = P##aws_##OP##_u32_checked((uint32_t)a, (uint32_t)b, &r);                                              \
-        res_arith(v, rc, r, P##aws_##OP##_u32_saturating((uint32_t)a, (uint32_t)b));                                   \
+        volatile struct ctx32 c_;                                                                                      \
+        c_.x = P##aws_##OP##_u32_saturating((uint32_t)a, (uint32_t)b);                                                 \
+        c_.y = P##aws_##OP##_u32_saturating((uint32_t)b, (uint32_t)a);                                                 \
+        uint64_t s2_ = sink32(b, a, P##aws_##OP##_u32_saturating((uint32_t)a, (uint32_t)b));                           \
+        res_arith(v, rc, r, P##aws_##OP##_u32_saturating((uint32_t)a, (uint32_t)b), s2_, c_.x, c_.y);                  \
     } while (0)
 #define ARITHSZ(OP, v)                                                                                                 \
     do {                                                                                                               \
         size_t r = (size_t)SENT64;                                                                                     \
         int rc = aws_##OP##_size_checked((size_t)a, (size_t)b, &r);                                                    \
-        res_arith(v, rc, r, aws_##OP##_size_saturating((size_t)a, (size_t)b));                                         \
+        volatile struct ctx64 c_;                                                                                      \
+        c_.x = aws_##OP##_size_saturating((size_t)a, (size_t)b);                                                       \
+        c_.y = aws_##OP##_size_saturating((size_t)b, (size_t)a);                                                       \
+        uint64_t s2_ = sink64(b, a, aws_##OP##_size_saturating((size_t)a, (size_t)b));                                 \
+        res_arith(v, rc, r, aws_##OP##_size_saturating((size_t)a, (size_t)b), s2_, c_.x, c_.y);                        \
     } while (0)
 
 static long long n_evals;
